@@ -246,6 +246,38 @@ def spec_B(p, rng, fid, lf, variant):
     return lf
 
 
+def rewidth_programs(pid, rng):
+    progs = []
+    # data of another width at the next write; a write refused for its data followed by a correct one; a write refused for missing
+    # objects before the first objects of other classes exist: the next file is the one of a fresh process
+    for i in range(6):
+        p = Prog(f'{pid}-rewidth-{i}', {'kind': 'rewidth'})
+        ixd = np.arange(4, dtype='float64')
+        first = [np.zeros((4, 2)), np.zeros((4, 2)), np.zeros((4,)), np.zeros((4, 3), dtype='float32'), None, None][i]
+        final = [rand_array(rng, 'float64', 4, 3), rand_array(rng, 'float64', 4), rand_array(rng, 'float64', 4, 2), rand_array(rng, 'float32', 4, 1),
+                 rand_array(rng, 'float64', 4, 2), rand_array(rng, 'int16', 4)][i]
+        for fid in (1, 101):
+            if fid == 101:
+                p.next_proc(fresh=True)
+            p.file(fid, vrl=256)
+            lf = p.lf(fid, lf=fid, fh_id='REWIDTH')
+            p.origin(lf, name='O')
+            if i == 5 and fid == 1:
+                p.write(fid, fname='refused.dlis', valid=False, mustraise='nochannels')      # no channels yet: refused
+            if i >= 4:
+                p.add(lf, 'axis', 'AX')
+                p.add(lf, 'zone', 'ZN')
+            ix, v = p.channel(lf, 'IX'), p.channel(lf, 'V')
+            p.frame(lf, 'FR', [ix, v], **({'index_type': EN('FrameIndexType', 'BOREHOLE_DEPTH')} if i == 4 else {}))
+            if fid == 1 and first is not None:
+                p.write(fid, route='dict', data_arrays={ix: p.array(ixd), v: p.array(first)}, fname='first.dlis')
+            if fid == 1 and i == 4:     # refused: the index channel is 2-D
+                p.write(fid, route='dict', data_arrays={ix: p.array(np.zeros((4, 2))), v: p.array(final)}, fname='refused.dlis', valid=False, mustraise='index2d')
+            p.write(fid, route='dict', data_arrays={ix: p.array(ixd), v: p.array(final)}, fname='second.dlis' if fid == 1 else 'fresh.dlis')
+        progs.append(p.build())
+    return progs
+
+
 def gen_C14(tier, seed):
     rng = rng_for('C14', tier, seed)
     progs = []
@@ -352,6 +384,7 @@ def gen_C14(tier, seed):
         p.write(101, route='dict', fname='fresh.dlis', **kw2f)
         p.meta['what'] = what
         progs.append(p.build())
+    progs += rewidth_programs('C14', rng)
     # the file header (id, sequence number) changed between two writes: the next file is the one of a fresh process
     for i in range(4):
         p = Prog(f'C14-reheader-{i}', {'kind': 'reheader'})
@@ -441,7 +474,8 @@ def gen_C17(tier, seed):
     rng = rng_for('C17', tier, seed)
     progs = []
     breaches = ['none', 'objname', 'chname', 'setid', 'hdrid', 'signed', 'noframe', 'twoframes', 'nonuniform', 'nonuniform-spacing',
-                'nonuniform-minmax', 'nonuniform-dec', 'nonuniform-dec-u16', 'nonuniform-jitter', 'units', 'indextype', 'eqtype', 'eqloc']
+                'nonuniform-minmax', 'nonuniform-dec', 'nonuniform-dec-u16', 'nonuniform-jitter', 'units', 'indextype', 'eqtype', 'eqloc',
+                'objname-nl', 'chname-nl', 'setid-nl', 'hdrid-nl', 'objname-tab']
     patterns = ['inside', 'outside', 'nested', 'after-exc', 'decorator', 'after-exit']
     k = 0
     for b in breaches:
@@ -468,8 +502,8 @@ def gen_C17(tier, seed):
             body.arrays = p.arrays
             body._n = 1000
             q = body
-            q.file(1, setid='lower case set' if b == 'setid' else 'STORAGE-SET-1')
-            lf = q.lf(1, fh_id='header with spaces' if b == 'hdrid' else 'HEADER-1')
+            q.file(1, setid='lower case set' if b == 'setid' else 'STORAGE-SET-1\n' if b == 'setid-nl' else 'STORAGE-SET-1')
+            lf = q.lf(1, fh_id='header with spaces' if b == 'hdrid' else 'HEADER-1\n' if b == 'hdrid-nl' else 'HEADER-1')
             q.origin(lf, name='ORIGIN-1')
             idx = (np.array([0, 1, 5, 6]) if b.startswith('nonuniform') else np.arange(4)).astype('float64')
             if b == 'nonuniform-dec':
@@ -479,7 +513,7 @@ def gen_C17(tier, seed):
             elif b == 'nonuniform-jitter':
                 idx = np.array([40, 30, 19, 10], dtype='float64')
             c1 = q.channel(lf, 'DEPTH', data=idx, units=(S('furlongs') if b == 'units' else EN('Unit', 'METER')))
-            c2 = q.channel(lf, 'chan lower' if b == 'chname' else 'VALUES',
+            c2 = q.channel(lf, 'chan lower' if b == 'chname' else 'VALUES\n' if b == 'chname-nl' else 'VALUES',
                            data=rand_array(rng, 'int16' if b == 'signed' else 'uint16', 4))
             chans = [c1, c2]
             if b == 'noframe':
@@ -497,6 +531,8 @@ def gen_C17(tier, seed):
                 q.frame(lf, 'SECOND-FRAME', [c2])
             if b == 'objname':
                 q.add(lf, 'zone', 'zone.with.dots')
+            if b in ('objname-nl', 'objname-tab'):
+                q.add(lf, 'zone', 'ZONE-1\n' if b == 'objname-nl' else 'ZONE\t1')
             if b in ('eqtype', 'eqloc'):
                 q.add(lf, 'equipment', 'EQ-1', eq_type=S('Gizmo') if b == 'eqtype' else EN('EquipmentType', 'CABLE'),
                       location=S('Moon') if b == 'eqloc' else EN('EquipmentLocation', 'RIG'))
@@ -765,6 +801,7 @@ def gen_C20(tier, seed):
         p.frame(lf, 'FR', [c1, c2], index_type=EN('FrameIndexType', 'BOREHOLE_DEPTH') if i % 2 else None)
         p.write(101, route='dict', data_arrays={c1: good_a, c2: good_b}, fname='fresh.dlis')
         progs.append(p.build())
+    progs += rewidth_programs('C20', rng)
     return progs
 
 
